@@ -25,6 +25,7 @@ pub fn all_messages() -> Vec<(Id, Call, u128)> {
     v.push(h(HubMsg::UConfig([None, None, Some(BSEI), None, None, None, None])));
     v.push(h(HubMsg::UParams(Some(30), None, None, None, Some(false), None)));
     v.push(h(HubMsg::SetOwner(NOMINEE)));
+    v.push(h(HubMsg::SetOwner(OWNER)));
     v.push(h(HubMsg::Accept));
     v.push((HUB, Call::Hub(HubMsg::Bond), 7));
     v.push((HUB, Call::Hub(HubMsg::BondSt), 7));
@@ -56,6 +57,7 @@ pub fn all_messages() -> Vec<(Id, Call, u128)> {
     v.push(r(RewMsg::Claim(None)));
     v.push(r(RewMsg::UConfig(None, None, Some(SWAP))));
     v.push(r(RewMsg::SetOwner(NOMINEE)));
+    v.push(r(RewMsg::SetOwner(OWNER)));
     v.push(r(RewMsg::Accept));
     v.push(r(RewMsg::Swap));
     v.push(r(RewMsg::Ugi));
@@ -67,6 +69,7 @@ pub fn all_messages() -> Vec<(Id, Call, u128)> {
     v.push(d(DispMsg::Dispatch));
     v.push(d(DispMsg::UConfig(None, None, None, None, Some(KEEPER), None)));
     v.push(d(DispMsg::SetOwner(NOMINEE)));
+    v.push(d(DispMsg::SetOwner(OWNER)));
     v.push(d(DispMsg::Accept));
     v.push(d(DispMsg::USwap(SWAP)));
     v.push(d(DispMsg::USwapDenom(2, true)));
@@ -77,6 +80,7 @@ pub fn all_messages() -> Vec<(Id, Call, u128)> {
     v.push(g(RegMsg::UConfig(Some(HUB))));
     v.push(g(RegMsg::Redelegations(205)));
     v.push(g(RegMsg::SetOwner(NOMINEE)));
+    v.push(g(RegMsg::SetOwner(OWNER)));
     v.push(g(RegMsg::Accept));
     v
 }
@@ -178,7 +182,7 @@ pub fn cmd_matrix(a: &[String]) {
     let mut rng = Rng::new(seed ^ 0xA11CE);
     match kind {
         "c10" => {
-            for class in 0..4 {
+            for class in 0..5 {
                 for op in genesis(&[201, 202, 203]) {
                     out.step(&op);
                 }
@@ -192,10 +196,17 @@ pub fn cmd_matrix(a: &[String]) {
                         out.step(&op);
                     }
                 }
-                if class == 3 {
+                if class == 3 || class == 4 {
                     for op in transfer_ownership(false) {
                         out.step(&op);
                     }
+                }
+                if class == 4 {
+                    // the nomination is withdrawn again: the owner names itself
+                    out.step(&tx(OWNER, HUB, Call::Hub(HubMsg::SetOwner(OWNER))));
+                    out.step(&tx(OWNER, REWARD, Call::Reward(RewMsg::SetOwner(OWNER))));
+                    out.step(&tx(OWNER, DISP, Call::Disp(DispMsg::SetOwner(OWNER))));
+                    out.step(&tx(OWNER, REG, Call::Reg(RegMsg::SetOwner(OWNER))));
                 }
                 out.step(&Op::Save);
                 for (target, call, funds) in all_messages() {
